@@ -32,6 +32,9 @@ func checkC05(c *Check, a *Anchors) {
 	methodResolution(c, a, "method-resolution-agrees")
 	c05ChecksumAtCheckTime(c, a)
 	c08CopyExhaustive(c, a) // the sources / generates entries of an included task are copies: a copy that drops Negate turns every exclude entry into an include
+	timestampFullResolution(c, a, "timestamp-full-resolution")
+	globFollowsSymlinks(c, a)
+	c06FileDefaultsNotImported(c, a, "file-defaults-not-imported") // `method:` of the root Taskfile is the default fingerprint method of every task without its own
 }
 
 func atomWith(asg map[string]bool, parts ...string) (string, bool) {
@@ -938,4 +941,71 @@ func c05ChecksumAtCheckTime(c *Check, a *Anchors) {
 		return true
 	})
 	c.Floor("checksum-computed-at-check-time", n, 1)
+}
+
+// timestampFullResolution (C04 / C05): the timestamp method compares modification times as the file system reports them.
+func timestampFullResolution(c *Check, a *Anchors, rule string) {
+	c.Rule(rule, "nothing reachable from the timestamp checker's IsUpToDate inside internal/fingerprint coarsens a time before it is compared (time.Time.Truncate / Round / Unix / UnixMilli …): an edit made after the recorded run but within the same (rounded) instant would compare as not newer, and — since every check moves the recorded time forward — would never be noticed")
+	up := c.P.Func(PkgFingerprint, "TimestampChecker", "IsUpToDate")
+	if up == nil {
+		c.Errorf("%s: TimestampChecker.IsUpToDate not found", rule)
+		return
+	}
+	coarse := map[string]bool{"Truncate": true, "Round": true, "Unix": true, "UnixMilli": true, "UnixMicro": true, "Format": true}
+	n := 0
+	ord := map[string]int{}
+	for fb := range c.P.ReachableFrom([]*FuncBody{up}, func(x *FuncBody) bool { return x.Pkg.PkgPath != PkgFingerprint }) {
+		if fb.Pkg.PkgPath != PkgFingerprint {
+			continue
+		}
+		c.Fn(fb)
+		for _, call := range callsIn(fb, true) {
+			fn, ok := callee(fb.Info(), call).(*types.Func)
+			if !ok || fn.Pkg() == nil || fn.Pkg().Path() != "time" {
+				continue
+			}
+			sig := fn.Type().(*types.Signature)
+			if sig.Recv() == nil || recvName(sig.Recv().Type()) != "Time" {
+				continue
+			}
+			n++
+			c.Decide(!coarse[fn.Name()], rule, ordinal(ord, "time."+fn.Name()+"@"+fnDisplay(fb.Root())), call.Pos(), "a comparison / accessor that keeps the full resolution",
+				"time.Time."+fn.Name()+" coarsens a modification time in "+fnDisplay(fb.Root())+" before the comparison: a source edited within the same rounded instant as the recorded run is not newer, the task is skipped, and the check moves the recorded time past the edit")
+		}
+	}
+	c.Floor(rule, n, 2)
+}
+
+// globFollowsSymlinks (C05): a source that is a symlink to a file is fingerprinted through the link.
+func globFollowsSymlinks(c *Check, a *Anchors) {
+	c.Rule("glob-follows-symlinks", "fingerprint.glob examines each expanded name with os.Stat (which follows symbolic links) and drops a name only for being a directory: os.Lstat, or a filter on the file mode (IsRegular, Mode()&…), removes every symlinked source and generated file from the fingerprint — edits behind the link go unnoticed and a symlinked `generates` entry counts as missing")
+	fb := c.P.Func(PkgFingerprint, "", "glob")
+	if fb == nil {
+		c.Errorf("glob-follows-symlinks: fingerprint.glob not found")
+		return
+	}
+	n := 0
+	ord := map[string]int{}
+	for _, g := range c.P.groupOf(fb, 1) {
+		if g.Pkg.PkgPath != PkgFingerprint {
+			continue
+		}
+		c.Fn(g)
+		for _, call := range callsIn(g, true) {
+			fn, ok := callee(g.Info(), call).(*types.Func)
+			if !ok || fn.Pkg() == nil {
+				continue
+			}
+			switch {
+			case fn.Pkg().Path() == "os" && (fn.Name() == "Stat" || fn.Name() == "Lstat"):
+				n++
+				c.Decide(fn.Name() == "Stat", "glob-follows-symlinks", ordinal(ord, "stat@"+fnDisplay(g)), call.Pos(), "os.Stat follows symbolic links",
+					"the expanded names are examined with os.Lstat: a name that is a symbolic link is judged as the link, not as the file it points to")
+			case fn.Pkg().Path() == "io/fs" && (fn.Name() == "IsRegular" || fn.Name() == "Mode" || fn.Name() == "Type"):
+				n++
+				c.Bad("glob-follows-symlinks", ordinal(ord, "mode-filter@"+fnDisplay(g)), call.Pos(), "the names are filtered by file mode ("+fn.Name()+"): anything that is not a regular file (a symlinked source, a named pipe) silently drops out of the fingerprint; only directories are to be skipped")
+			}
+		}
+	}
+	c.Floor("glob-follows-symlinks", n, 1)
 }
